@@ -422,7 +422,9 @@ func (e *Engine) reachPhase(vc *VC, cfg SolverCfg, base string, proved map[*Obli
 			continue
 		}
 		ob := it.Ob
-		if ob.Skip && ob.Term != "true" && ob.PC != "" && ob.PC != "false" && len(pairs) < 60 {
+		if ob.Skip && ob.Term != "true" && ob.PC != "" && ob.PC != "false" && len(pairs) < 60 &&
+			!strings.HasPrefix(ob.Kind, "safety.panic") && !strings.HasPrefix(ob.Kind, "unwind") && !strings.HasSuffix(ob.Term, " false)") {
+			// (a panic-unreachable obligation states that its own point is infeasible: nothing to guard there)
 			// an obligation outside the unit's claim is assumed, not proved: assuming it must not make its own
 			// program point unreachable (it would, if it fails on every path through that point)
 			pq := &pairQ{before: askAlways(ob.PC, "before:"+ob.Name), after: -1, what: "assuming the unclaimed obligation " + ob.Name}
